@@ -1,7 +1,9 @@
 import DuneVerif.Common.Proto
 import DuneVerif.Model.C09
 import DuneVerif.Model.C09LU
+import DuneVerif.Model.C09LUT
 import DuneVerif.Model.C09X
+import DuneVerif.Model.C09K
 /-! line-protocol driver for C09 (see harness/cxx_c09.cc for the op lines).
 
 Scalar types of the correspondence: `i32`/`i64` as exact `Int` with the range of the C++ type (an operation
@@ -811,11 +813,12 @@ def execMatG (what : String) (n : Nat) (piv : Bool) (ta : String) (tb : Option S
   | none => "bad-op"
   | some (A : Mat (V K) n) =>
     match what, tb with
-    | "det", none => "[" ++ showG C (determinant X R piv A) ++ "]"
+    -- (round 4) the LU-based algorithms run from the control table `luCtl` translated from densematrix.hh (Model/C09LUT.lean)
+    | "det", none => match determinantT X R luCtl piv A with | some d => "[" ++ showG C d ++ "]" | none => "ERR:FMatrix"
     | "solve", some tb => match parseVG C n tb with
-      | some b => match solve X R piv A b with | some x => showVG C x | none => "ERR:FMatrix"
+      | some b => match solveT X R luCtl piv A b with | some x => showVG C x | none => "ERR:FMatrix"
       | none => "bad-op"
-    | "inv", none => match invert X R piv A with | some B => showRM C B | none => "ERR:FMatrix"
+    | "inv", none => match invertT X R luCtl piv A with | some B => showRM C B | none => "ERR:FMatrix"
     | "mv", some tb => match parseVG C n tb with
       | some b => showVG C (mv X R A b)
       | none => "bad-op"
@@ -839,9 +842,9 @@ def execMatC (what : String) (n : Nat) (piv : Bool) (limit : Float) (ta : String
   | some (A : Mat (V K) n) =>
     match what, tb with
     | "solve", some tb => match parseVG C n tb with
-      | some b => match solveC X R chk piv A b with | some x => showVG C x | none => "ERR:FMatrix"
+      | some b => match solveCT X R luCtl chk piv A b with | some x => showVG C x | none => "ERR:FMatrix"
       | none => "bad-op"
-    | "inv", none => match invertC X R chk piv A with | some B => showRM C B | none => "ERR:FMatrix"
+    | "inv", none => match invertCT X R luCtl chk piv A with | some B => showRM C B | none => "ERR:FMatrix"
     | _, _ => noSuch
 
 def execRectG (what : String) (r c : Nat) (rest : List String) : String :=
@@ -861,25 +864,19 @@ def execRectG (what : String) (r c : Nat) (rest : List String) : String :=
   | [ta, tx, ty, tal] =>
     match parseRM C r c ta, parseOne C tal with
     | some A, some alpha =>
-      if what ∈ ["mv", "umv", "mmv", "usmv"] then
-        match parseVG C c tx, parseVG C r ty with
-        | some x, some y =>
-          match what with
-          | "mv" => showVG C (mvR X R A x y)
-          | "umv" => showVG C (umvR X R A x y)
-          | "mmv" => showVG C (mmvR X R A x y)
-          | _ => showVG C (usmvR X R alpha A x y)
-        | _, _ => "bad-op"
-      else if what ∈ ["mtv", "umtv", "mmtv", "usmtv"] then
-        match parseVG C r tx, parseVG C c ty with
-        | some x, some y =>
-          match what with
-          | "mtv" => showVG C (mtvR X R A x y)
-          | "umtv" => showVG C (umtvR X R A x y)
-          | "mmtv" => showVG C (mmtvR X R A x y)
-          | _ => showVG C (usmtvR X R alpha A x y)
-        | _, _ => "bad-op"
-      else noSuch
+      -- (round 4) the kernels run from the shapes translated from densematrix.hh (`Gen.kernelTable`, Model/C09K.lean);
+      -- `conjugateComplex` is the identity on the (real) lanes the harness uses
+      match kernelTable.lookup what with
+      | some s =>
+        if s.form == KForm.n then
+          match parseVG C c tx, parseVG C r ty with
+          | some x, some y => showVG C (kernelRunN X R id s alpha A x y)
+          | _, _ => "bad-op"
+        else
+          match parseVG C r tx, parseVG C c ty with
+          | some x, some y => showVG C (kernelRunT X R id s alpha A x y)
+          | _, _ => "bad-op"
+      | none => noSuch
     | _, _ => "bad-op"
   | _ => "bad-op"
 
